@@ -162,7 +162,8 @@ def classify_failure(what, label):
 
 def run(check):
     quick = check.tier == 'quick'
-    check.prove(extra_targets=())
+    check.prove(extra_targets=('drv_flow',))
+    check.prove_also('C08Flow')      # termination of the table evaluator on every ranked graph, with an explicit fuel bound
     S = flowgraph.load_supp()
     lint, assist, location = S['linter'].lint, S['assistant'].assist, S['assistant'].location
     root = '/tmp/verif-c08-%d' % os.getpid()
@@ -296,6 +297,28 @@ def run(check):
         one('gen%d' % i, src, positions)
         for mlabel, msrc, mpos in mutations(src, rng)[:2]:
             one('gen%d:%s' % (i, mlabel), msrc, [mpos])
+    # hypothesis of C08_eval_terminates on real graphs: acyclic once loop back edges are ignored
+    reqs, labels = [], []
+    gproject = S['project'].Project([root])
+    gsources = [(l, s_) for l, s_, _p in SPECIAL[:30]]
+    for i in range(40 if quick else 600):
+        src = pygen.Gen(rng, depth=rng.choice([2, 3, 4]), loops=1.5).program()
+        if pygen.valid(src):
+            gsources.append(('gen-graph%d' % i, src))
+    for fn in sorted(glob.glob(os.path.join(common.REPO, 'supp', '*.py'))):
+        gsources.append(('file:' + os.path.basename(fn), open(fn).read()))
+    for label, src in gsources:
+        try:
+            gv = flowgraph.analyse(S, src, fname, gproject)
+        except Exception:
+            continue
+        reqs.append({'op': 'ranked', 'graph': gv.json})
+        labels.append(label)
+    reps = common.ask_driver(reqs, exe='drv_flow')
+    unranked = [l for l, r in zip(labels, reps) if not r.get('ranked')]
+    check.oblige('every real flow graph is ranked (hypothesis of C08_eval_terminates, evaluated by the driver)', not unranked, 'not ranked: %s' % unranked[:5])
+    check.extra['ranked_graphs'] = {'graphs': len(reps), 'ranked': len(reps) - len(unranked),
+                                    'max_rankFuel': max([r.get('rankFuel', 0) for r in reps] or [0])}
     check.oblige('shape correspondence: E01 iff CPython rejects the text; SyntaxError from location iff CPython rejects the marked text', shape_dis == 0,
                  '%d disagreements' % shape_dis)
     check.cov['evaluations'] = n_eval
